@@ -257,6 +257,27 @@ class Session:
             self.obj.purge(step[1] or None) if hexobj else self.obj.purge()
         elif op == "recalculate":
             self.obj.recalculate(step[1] or None) if hexobj else self.obj.recalculate()
+        elif op == "reconf":
+            # settings the generated name does not carry are changed on the live object, then it is
+            # recalculated (Hexital.recalculate: "ideal for changing an indicator parameters midway")
+            from catalog import HAS_MULT
+
+            i_old, i_new = step[1], step[2]
+            ind, new = self.indicator(i_old), self.cfgs[i_new]
+            ind.round_value = new.rv
+            if hasattr(ind, "input_value") and new.kind != "Counter":
+                ind.input_value = new.inp
+            if new.kind == "EMA":
+                ind.smoothing = new.smoothing if new.smoothing is not None else 2.0
+            if new.kind in HAS_MULT and new.mult is not None:
+                setattr(ind, HAS_MULT[new.kind], new.mult)
+            name = self.live[i_old]
+            self.live[i_new] = name
+            self.active = [i_new if x == i_old else x for x in self.active]
+            if hexobj:
+                self.obj.recalculate(name)
+            else:
+                self.obj.recalculate()
         elif op == "calculate_index":
             if len(step) > 3 and step[3] == "fresh":
                 if hexobj:
@@ -546,6 +567,8 @@ def record(sc):
             nm = step[1] or ""
         elif step[0] == "add":
             nm = ses.live.get(step[1], "")
+        elif step[0] == "reconf":
+            nm = ses.live.get(step[2], "")
         opname = step[0]
         if step[0] == "calculate_index" and len(step) > 3 and step[3] == "fresh":
             opname = "calculate_index_fresh"
@@ -553,7 +576,7 @@ def record(sc):
               "a": step[1] if step[0] == "append" else 0,
               "b": step[2] if step[0] == "append" else (step[1] if step[0] == "new" else 0),
               "nm": nm,
-              "idx": step[2] if step[0] == "calculate_index" else (step[1] + 1 if step[0] == "add" else 0),
+              "idx": step[2] if step[0] == "calculate_index" else (step[1] + 1 if step[0] == "add" else step[2] + 1 if step[0] == "reconf" else 0),
               "exc": exc, "bt": [], "ob": ses.observed(), "rd": reads,
               "ab": ses.args[0], "aa": ses.args[1], "wk": [w for w in wk if w]}
         snaps.append((ev, {n: proj_candles(cs, base) for n, cs in ses.managers()}))
@@ -595,6 +618,12 @@ def record(sc):
                     for j, (_, cs) in enumerate(tw.managers()):
                         last["bt"].append({"j": j + 1, "mode": "prefix", "skip": skip_of[j],
                                            "names": [], "clause": "longer", "cs": proj_candles(cs, base)})
+                elif kind == "aligned":
+                    # a batch over the longer stream; compared candle by candle where timestamps coincide
+                    tw = batch_twin(sc, base, len(sc["stream"]))
+                    for j, (_, cs) in enumerate(tw.managers()):
+                        last["bt"].append({"j": j + 1, "mode": "align", "skip": skip_of[j], "names": [],
+                                           "clause": "longer", "cs": proj_candles(cs, base)})
                 elif kind == "reform":
                     # the same program fed with another encoding of the same candle data
                     sc2 = dict(sc, form=sc.get("reform_to", "dict_iso"), twins=[])
@@ -675,6 +704,8 @@ def record(sc):
         c = sc["inds"][0]
         mg.append(mgr_cfg("default", c.timeframe, c.fill, c.lifespan, c.ctype))
         inds.append(dict(c.spec(ses.live.get(0, "")), act=1))
+        for k_, c2 in enumerate(sc.get("late", []), 1):      # settings the same indicator is given later
+            inds.append(dict(c2.spec(ses.live.get(k_, ses.live.get(0, ""))), act=0))
     else:
         hx = sc.get("hex", {})
         for n in mg_names:
